@@ -220,8 +220,13 @@ def build_server(item: dict[str, Any], box: dict[str, Any]) -> Any:
                 pass
 
         async def respond(self, request: Any) -> Any:
-            await asyncio.sleep(0)
+            # requests take differing times inside the ECU (virtual): replies must still come in request order
+            d = item.get("delays")
+            await asyncio.sleep(0 if not d else d[(request.pdu[0] + len(request.pdu)) % len(d)])
             return EchoResponse(request.pdu)
+
+    if item["mode"] == "server2":
+        return _build_server2(item, box, EchoServer, msgs)
 
     def scenario(run: Run) -> None:
         src = Source(segs, eof=True)
@@ -246,6 +251,65 @@ def build_server(item: dict[str, Any], box: dict[str, Any]) -> Any:
         run.done = task.done
 
     return scenario
+
+
+def _build_server2(item: dict[str, Any], box: dict[str, Any], echo_cls: Any, msgs: list[bytes]) -> Any:
+    """two testers connected to the same virtual ECU transport object at overlapping times; each sends its own messages
+    (tester B's are the bit-wise complements), one segment per message, the explorer interleaves the deliveries"""
+    msgs_b = [bytes(x ^ 0xFF for x in m) for m in msgs]
+
+    def scenario(run: Run) -> None:
+        srcs = [Source([encode(m) for m in msgs], eof=True), Source([encode(m) for m in msgs_b], eof=True)]
+        conns = [Conn(run, srcs[0], "c0"), Conn(run, srcs[1], "c1")]
+        for c in conns:
+            run.add_actor(c)
+        srv = G["srv"]
+        t = srv.TCPUDSServerTransport(echo_cls(), G["TargetURI"]("tcp-lines://127.0.0.1:1"))
+        out: dict[str, Any] = {}
+        box.update(srcs=srcs, conns=conns, out=out, msgs2=[msgs, msgs_b])
+
+        async def one(i: int) -> None:
+            try:
+                await t.handle_client(conns[i].reader, conns[i].writer)
+                out[i] = "returned"
+            except ZeroDivisionError:
+                out[i] = "returned"
+            except BaseException as e:  # noqa: BLE001
+                out[i] = "raised:" + type(e).__name__
+
+        tasks = [run.loop.create_task(one(i), name=f"server{i}") for i in (0, 1)]
+        run.done = lambda: all(x.done() for x in tasks)
+
+    return scenario
+
+
+def judge_server2(item: dict[str, Any], box: dict[str, Any], run: Run, choices: list[int], res: Result) -> None:
+    rp = {"item": item, "choices": choices}
+
+    def v(sig: str, m: str) -> None:
+        res.violate(f"C19|server|two-connections|{sig}", m + f" [msgs={item['msgs']}]", rp)
+
+    if run.status != "done":
+        v(f"hang|{run.status}", "server loops did not end after end of both streams")
+        return
+    for i in (0, 1):
+        if box["out"].get(i) != "returned":
+            v("loop-raised|" + str(box["out"].get(i)), f"handle_client of connection {i} ended with {box['out'].get(i)}")
+            return
+        try:
+            got, rest = decode_stream(bytes(box["srcs"][i].rx))
+        except ValueError as e:
+            v("reply-not-hex", f"connection {i} received something that is not a hex line: {e}")
+            return
+        want = box["msgs2"][i]
+        if rest or got != want:
+            other = box["msgs2"][1 - i]
+            foreign = sum(1 for g in got if g in other and g not in want)
+            v(
+                "foreign-replies" if foreign else "sequence-" + ("count" if len(got) != len(want) else "content"),
+                f"tester {i} sent {len(want)} requests and received {len(got)} replies, {foreign} of them answers to the other tester's requests",
+            )
+            return
 
 
 def judge_server(item: dict[str, Any], box: dict[str, Any], run: Run, choices: list[int], res: Result) -> None:
@@ -283,6 +347,7 @@ def build_client_tx(item: dict[str, Any], box: dict[str, Any]) -> Any:
     def scenario(run: Run) -> None:
         src = Source([], eof=False)
         net = Net(run, lambda n: src)
+        net.tx_room = item.get("tx_room")  # not None: the peer reads slowly, writes pile up in the transport's buffer
         net.install()
         box.update(src=src, net=net)
         out: dict[str, Any] = {}
@@ -295,7 +360,8 @@ def build_client_tx(item: dict[str, Any], box: dict[str, Any]) -> Any:
                 tr = await G["tcp"].connect("tcp-lines://192.0.2.1:1234")
             rets = []
             for m in msgs:
-                rets.append(await tr.write(m, timeout=1.0))
+                # (slow peer: no write timeout - whether the peer reads within a deadline is not the property's subject)
+                rets.append(await tr.write(m, timeout=1.0 if item.get("tx_room") is None else None))
             out["rets"] = rets
             await tr.close()
 
@@ -328,6 +394,7 @@ def judge_client_tx(item: dict[str, Any], box: dict[str, Any], run: Run, choices
 MODES = {
     "rx": (build_client_rx, judge_client_rx),
     "server": (build_server, judge_server),
+    "server2": (build_server, judge_server2),
     "tx": (build_client_tx, judge_client_tx),
 }
 
@@ -458,7 +525,12 @@ def run_item(work: tuple[Any, ...]) -> Result:
                         res.seen("timeout_positions", (tuple(map(tuple, item["msgs"])), r[2]))
         elif item["mode"] == "server":
             res.seen("states", ("server", bytes(box["src"].rx), tuple(t for t, _ in box["conn"].wire)))
+        elif item["mode"] == "server2":
+            res.count("two_connection_executions")
+            res.seen("states", ("server2", tuple(bytes(x.rx) for x in box["srcs"]), tuple(tuple(t for t, _ in c.wire) for c in box["conns"])))
         else:
+            if item.get("tx_room") is not None:
+                res.count("slow_peer_executions")
             res.seen("states", ("tx", item["side"], bytes(box["src"].rx)))
         if getattr(run, "capped", False):
             res.count("capped_items")
@@ -520,12 +592,26 @@ def items(tier: str, seed: int) -> list[Any]:
                 out.append(({"mode": "server", "msgs": sq, "seg": seg}, min(b, 1), cap))
         for side in ("tcp", "unix"):
             out.append(({"mode": "tx", "side": side, "msgs": sq}, 0, cap))
+            if sq and (len(sq) <= 2 or not quick):
+                # slow peer: everything written waits in the transport's buffer until the peer reads; close() must flush it
+                out.append(({"mode": "tx", "side": side, "msgs": sq, "tx_room": 0}, 1, cap))
+        if sq and len(sq) <= 2 and all(n <= 255 for n, _ in sq):
+            # requests that take differing times inside the ECU; two testers on one virtual ECU
+            out.append(({"mode": "server", "msgs": sq + sq[::-1] + sq, "seg": "one", "delays": [0.3, 0.0, 0.1]}, 1, cap))
+            out.append(({"mode": "server2", "msgs": sq + sq[::-1], "seg": "msgs"}, 2 if len(sq) == 1 else 1, cap))
     # bursts
     burst = [SPECS[i % len(SPECS)] if SPECS[i % len(SPECS)][0] < 4095 else (3, "asc") for i in range(50)]
     for seg in ("one", "msgs", [7, 300, 301, 2000]):
         out.append(({"mode": "rx", "side": "tcp", "msgs": burst, "seg": seg}, 1, cap))
         out.append(({"mode": "server", "msgs": burst, "seg": seg}, 1, cap))
     out.append(({"mode": "tx", "side": "tcp", "msgs": burst}, 0, cap))
+    out.append(({"mode": "server", "msgs": burst, "seg": "one", "delays": [0.2, 0.0, 0.05, 0.4]}, 1, cap))
+    out.append(({"mode": "server2", "msgs": burst[:12], "seg": "msgs"}, 1, cap))
+    big = [(4095, "asc"), (4095, "ff")] * 12  # > 64 KiB of hex lines: the transport pauses the writer until the peer has read
+    for side in ("tcp", "unix"):
+        for room in (0, 100):
+            out.append(({"mode": "tx", "side": side, "msgs": burst, "tx_room": room}, 1, cap))
+            out.append(({"mode": "tx", "side": side, "msgs": big, "tx_room": room}, 1, cap))
     # conformance of the stream model against real loopback sockets (few: real time)
     conf = [([(2, "0a0d")], [3]), ([(1, "00"), (2, "asc")], "msgs"), ([(1, "ff"), (1, "00"), (2, "0a0d")], "one"), ([(255, "asc"), (1, "00")], [1, 300, 511, 512]),
             ([(4095, "0a0d"), (2, "asc")], [8190, 8192]), ([(2, "asc")], "bytes"), ([], "one"), ([(4095, "ff")] * 2, "msgs")]
